@@ -294,4 +294,7 @@ def run(chk):
     import rules.C07 as c07
     c07.run(core.Only(chk, {"C07.bracket", "C07.payload", "C07.hdr", "C07.flip", "C07.sib", "C07.blocks", "C07.size"}))
 
+    from verif import narrow
+    narrow.run_offwidth(chk, "C08")
+
     chk.assumptions += ["header widths are joined with the writer via rules/C07.header_sums (T-agree between modules)"]
